@@ -1406,7 +1406,7 @@ theorem limitedOk_of_post {W : World ω} {T : Int} {s : LSt σ ω} {α : Type} {
 rounds it needs".**  Under A-CLOCK (`ClockOk W`: the clock does not run backwards, a wait with argument `t ≥ 0`
 comes back after at most `t` ms, `send`/`recv` take no time), for every engine that stops after a failed callback
 and never writes zero bytes (A-SSL, `Engine.FailStop`), from every state in which no callback failure is stashed (an
-invariant: see the conclusion), for every number of rounds (`C.stepsMax` is arbitrary), BIO reads and writes, partial
+invariant of every call history on such an engine: `no_failure_left_stashed`, and the conclusion here), for every number of rounds (`C.stepsMax` is arbitrary), BIO reads and writes, partial
 sends and WANT_READ / WANT_WRITE answers: every wait of `Receive(…, T)` / `Send(…, T)` has an argument `t` with
 `0 ≤ t ≤ T - (now at that wait - now at entry)`, hence the call returns no later than entry + T; the budget never
 becomes negative. -/
@@ -1418,6 +1418,19 @@ theorem tls_limited_budget (C : Cfg) {W : World ω} (hc : ClockOk W) (E : Engine
   have h0 : LimGood W (W.now s.w.1 + T) (logOf s) (setTimeout s T) :=
     ⟨Int.le_of_lt hT, Int.le_refl _, LogAll.refl _, hp⟩
   exact ⟨fun n => limitedOk_of_post (F.receiveT C s n T h0), fun data => limitedOk_of_post (F.sendT C s data T h0)⟩
+
+/-- the entry condition of (T3), "no callback failure is stashed", is an invariant of every history of `Receive` /
+`Send` calls with ANY timeouts on a socket whose engine is fail-stop: a fresh socket has none, and no call leaves one
+behind (it is rethrown by `HandleResult` within the same call) -/
+theorem no_failure_left_stashed (C : Cfg) (W : World ω) (E : Engine σ) (hE : E.FailStop) (s : St σ ω)
+    (hp : s.g.pendingError = none) :
+    (∀ n t, (receiveT C W E s n t).2.g.pendingError = none) ∧ (∀ d t, (sendT C W E s d t).2.g.pendingError = none) := by
+  have F := noStashFrame W E hE
+  have fin : ∀ {α : Type} {o : Out α} {s' : St σ ω},
+      Post (fun s : St σ ω => s.g.pendingError = none) (fun _ => True) o s' → s'.g.pendingError = none := by
+    intro α o s' h
+    rcases h with h | ⟨_, h, _⟩ <;> exact h
+  exact ⟨fun n t => fin (F.receiveT C s n t hp), fun d t => fin (F.sendT C s d t hp)⟩
 
 end SockModel.Tls
 
